@@ -6,4 +6,4 @@ Require Import ZV.Model.GenShape ZV.Model.CallCheck ZV.Model.Destructure ZV.Mode
 Extract Inductive string => "(ascii list)" [ "[]" "(fun (a, s) -> a :: s)" ]
   "(fun fe fs s -> match s with [] -> fe () | a :: s' -> fs a s')".
 Extraction "model.ml" Z.add Z.mul Z.opp Z.div_eucl Z.of_nat Z.to_nat Z.compare
-  load_deferred size call_check assign_arrays bindlist expand_gen mk_tok psize_list infix_form_gen argk_size.
+  load_deferred size call_check assign_arrays bindlist expand_auto mk_tok infix_form_auto.
